@@ -115,7 +115,7 @@ impl ScaleCase {
             },
             user: if user.is_empty() { None } else { Some(user) },
             mapping: None,
-            opts: vec![TokOpts { ignore_space: false, max_grouping_len: 0 }],
+            opts: vec![TokOpts { ignore_space: false, max_grouping_len: 0, history: 0 }],
             sentences: SENTENCES.iter().map(|s| s.to_string()).collect(),
         }
     }
